@@ -596,7 +596,7 @@ func (wirevarEngine) Run(ctx *fw.Ctx, cs any) {
 		}
 	}()
 	w.variants(dir)
-	for _, pr := range []string{"C01", "C11", "C13", "C14", "C15", "C17"} {
+	for _, pr := range []string{"C01", "C11", "C12", "C13", "C14", "C15", "C17"} {
 		ctx.Nontrivial(pr, fmt.Sprintf("wirevar/%d", c.Seed))
 		if ctx.WantSample(pr) {
 			ctx.Sample(pr, map[string]any{"engine": "wirevar", "variants": "alt-port+long-options, no-CAP_NET_RAW, late-listen-address"})
